@@ -200,11 +200,26 @@ func (d *DHCPv4) Len() uint16 {
 // SerializationBuffer, implementing gopacket.SerializableLayer.
 // See the docs for gopacket.SerializableLayer for more info.
 func (d *DHCPv4) SerializeTo(b gopacket.SerializeBuffer, opts gopacket.SerializeOptions) error {
-	plen := int(d.Len())
+	// Len() is a uint16 computed from the Length fields; size the buffer from what is actually written.
+	plen := 241 // fixed header, magic and the end option
+	for _, o := range d.Options {
+		if len(o.Data) > 255 {
+			return EncOptionTooLong
+		}
+		plen += o.serializedLen()
+		if plen > 0xffff {
+			// Len() is a uint16, and a DHCP message travels in a single UDP datagram
+			return EncPacketTooLong
+		}
+	}
 
 	data, err := b.PrependBytes(plen)
 	if err != nil {
 		return err
+	}
+	// Addresses, names and option data may be shorter than their slots: zeroize in case the memory is dirty.
+	for i := range data {
+		data[i] = 0
 	}
 
 	data[0] = byte(d.Operation)
@@ -232,12 +247,7 @@ func (d *DHCPv4) SerializeTo(b gopacket.SerializeBuffer, opts gopacket.Serialize
 			if err := o.encode(data[offset:]); err != nil {
 				return err
 			}
-			// A pad option is only a single byte
-			if o.Type == DHCPOptPad {
-				offset++
-			} else {
-				offset += 2 + len(o.Data)
-			}
+			offset += o.serializedLen()
 		}
 	}
 	optend := NewDHCPOption(DHCPOptEnd, nil)
@@ -547,6 +557,14 @@ func NewDHCPOption(t DHCPOpt, data []byte) DHCPOption {
 	return o
 }
 
+// serializedLen returns the number of bytes encode writes: pad and end options are a single byte.
+func (o *DHCPOption) serializedLen() int {
+	if o.Type == DHCPOptPad || o.Type == DHCPOptEnd {
+		return 1
+	}
+	return 2 + len(o.Data)
+}
+
 func (o *DHCPOption) encode(b []byte) error {
 	switch o.Type {
 	case DHCPOptPad, DHCPOptEnd:
@@ -594,6 +612,10 @@ const (
 	DecOptionNotEnoughData = DHCPv4Error("Not enough data to decode")
 	// DecOptionMalformed is returned when the option is malformed
 	DecOptionMalformed = DHCPv4Error("Option is malformed")
+	// EncOptionTooLong is returned when the data of an option does not fit its one-byte length
+	EncOptionTooLong = DHCPv4Error("Option data longer than 255 bytes")
+	// EncPacketTooLong is returned when the options do not fit a packet of 65535 bytes
+	EncPacketTooLong = DHCPv4Error("Packet longer than 65535 bytes")
 	// InvalidMagicCookie is returned when Magic cookie is missing into BOOTP header
 	InvalidMagicCookie = DHCPv4Error("Bad DHCP header")
 )
